@@ -431,10 +431,13 @@ async fn consumer_task(
     mode: Consumer,
 ) {
     let drop_at = match mode {
-        Consumer::Drain => None,
+        Consumer::Drain | Consumer::StartAt(_) => None,
         Consumer::DropAt(ms) => Some(ms),
     };
     let t0 = tokio::time::Instant::now();
+    if let Consumer::StartAt(ms) = mode {
+        tokio::time::sleep_until(t0 + Duration::from_millis(ms)).await;
+    }
     loop {
         let next = match drop_at {
             None => events.next().await,
@@ -581,7 +584,9 @@ async fn direct(plan: Plan, world: Shared) -> RunOutput {
     loop {
         let (now, last) = {
             let w = world.lock().unwrap_or_else(|e| e.into_inner());
-            (w.now_ms(), w.last_io_ms)
+            // a server that is still working on a request (possibly for minutes) is activity
+            let last = if w.mpd.busy && !w.mpd.closed { w.now_ms() } else { w.last_io_ms };
+            (w.now_ms(), last)
         };
         let quiet_at = last + QUIESCENCE.as_millis() as u64;
         if now >= quiet_at || tokio::time::Instant::now() >= quiet_deadline {
@@ -710,10 +715,13 @@ pub fn execute(plan: &Plan) -> RunOutput {
         .build()
         .expect("runtime");
     let plan2 = plan.clone();
+    let tracing_on = plan.tracing;
     let res = std::panic::catch_unwind(std::panic::AssertUnwindSafe(|| {
-        rt.block_on(async move {
-            let world: Shared = Arc::new(Mutex::new(World::new(&plan2)));
-            direct(plan2, world).await
+        crate::tracesub::with_tracing(tracing_on, || {
+            rt.block_on(async move {
+                let world: Shared = Arc::new(Mutex::new(World::new(&plan2)));
+                direct(plan2, world).await
+            })
         })
     }));
     let _ = std::panic::catch_unwind(std::panic::AssertUnwindSafe(move || drop(rt)));
